@@ -184,10 +184,12 @@ function adhoc_parse_select_expression_to_column_infos(select_expression, string
 
 
 function stable_compare(a, b) {
-    for (var i = 0; i < a.length; i++) {
+    // The last element of an entry is the output record, it is not a part of the sorting key
+    for (var i = 0; i < a.length - 1; i++) {
         if (a[i] !== b[i])
             return a[i] < b[i] ? -1 : 1;
     }
+    return 0;
 }
 
 
